@@ -64,10 +64,12 @@ def Scope.declare (n : Name) (t : Ty) (m : Bool) : Scope → Scope
   | [] => [[(n, t, m)]]
   | frame :: outer => ((n, t, m) :: frame) :: outer
 
+/-- primitive, or a type registered under the type's display name (for a struct type its name;
+array types are outside the rule set — nothing is ever registered under their display name unless
+a struct is deliberately named like one) -/
 def typeRegistered (g : RGlobals) : Ty → Bool
   | .prim _ => true
-  | .struct n _ => (rlookup n g.types).isSome
-  | .array _ _ => false
+  | t => (rlookup t.show g.types).isSome
 
 /-- result of checking an expression: violations met (unenforced ones may precede an enforced
 one that aborted the expression) and the type when no enforced violation occurred -/
@@ -370,16 +372,20 @@ def paramTypeMissing (g : RGlobals) : List (Name × ATy) → Option Name
   | [] => none
   | (n, t) :: rest => if typeRegistered g t.toTy then paramTypeMissing g rest else some n
 
+/-- D4 on the first operand of a constant expression is not enforced (finding F6a): it is noted,
+nothing else changes -/
+def noteHead (d : ConstDecl) (s : DS) : DS :=
+  match d.value.headV with
+  | .const n => if (rlookup n s.g.consts).isSome then s else s.viol "D4-head" .constantNotFound n false
+  | .val _ => s
+
 /-- D3–D7 in source order -/
 def declConstsFns : Program → DS → DS
   | [], s => s
   | .const d :: rest, s =>
     if (rlookup d.name s.g.consts).isSome then declConstsFns rest (s.viol "D3" .constantAlreadyExist d.name true)
     else
-      -- D4 on the first operand is not enforced (finding F6a)
-      let s := match d.value.headV with
-        | .const n => if (rlookup n s.g.consts).isSome then s else s.viol "D4-head" .constantNotFound n false
-        | .val _ => s
+      let s := noteHead d s
       match d.value.tail?.bind (constTailMissing s.g) with
       | some n => declConstsFns rest (s.viol "D4" .constantNotFound n true)
       | none =>
